@@ -2,6 +2,7 @@
 import os
 
 import common as C
+import optsdom
 import validout
 
 CORPUS = os.path.join(C.VERIF, "corpus", "C12")
@@ -12,7 +13,7 @@ def build(ctx):
     ctx.log("translate", out)
     if not ok:
         ctx.diag.append("translator failed: " + out[-300:])
-    C.prove(ctx, ["Props/C12.v", "Props/C12Valid.v"], ["Oblig/C12Obl.v", "Oblig/ValidFlatObl.v"])
+    C.prove(ctx, ["Props/C12.v", "Props/C12Valid.v", "Props/C12Opts.v"], ["Oblig/C12Obl.v", "Oblig/ValidFlatObl.v", "Oblig/OptSitesObl.v", "Oblig/C12OptsObl.v"])
     ok, out = C.build_harness()
     ctx.log("go build", out)
     if not ok:
@@ -77,6 +78,8 @@ def run(ctx):
     validout.run(ctx, "flatten")
     summ = oracle(ctx, ctx.scale(9000, 40000))
     ctx.add_summary(summ, "FlattenBatches oracle")
+    optsdom.corr(ctx, "C12")
+    optsdom.run(ctx, "C12")
     if summ and "input_file_no_longer_valid_after_flatten" in summ:
         # outside the statement of C12 (see docs/C12.md, "Observation")
         ctx.cov["observation_input_file_no_longer_valid_after_flatten"] = summ["input_file_no_longer_valid_after_flatten"]
@@ -85,6 +88,8 @@ def run(ctx):
 
 
 def replay(path):
+    if optsdom.is_case(path):
+        return optsdom.replay(path)
     ok, out = C.build_harness()
     if not ok:
         print(out[-2000:])
